@@ -296,7 +296,8 @@ def run(prop, tier):
         plans.append((ev, b6 + b7))
     if use_graph:
         if quick:
-            model_check(chk, "MC_Kektor_graph", dict(GRAPH_Q, MaxOps=3), timeout=900)
+            if prop != "C01":      # C01's quick tier leaves the design-level graph run to C10 (same module, same invariants)
+                model_check(chk, "MC_Kektor_graph", dict(GRAPH_Q, MaxOps=3), timeout=900)
         else:
             model_check(chk, "MC_Kektor_graph_small", dict(GRAPH_Q, MaxOps=4), timeout=3000)
             model_check(chk, "MC_Kektor_graph", dict(graph, MaxOps=3), timeout=3000)
